@@ -12,4 +12,5 @@ void h_time_bounds (void) {
 	__CPROVER_assert (nsync_time_cmp (t, nsync_time_no_deadline) <= 0, "C18: t <= no_deadline");
 	__CPROVER_assert (nsync_time_zero.tv_sec == 0 && nsync_time_zero.tv_nsec == 0, "C18: zero is (0,0)");
 	__CPROVER_assert (nsync_time_no_deadline.tv_sec == VP_SEC_MAX && nsync_time_no_deadline.tv_nsec == VP_NS - 1, "C18: no_deadline is (max,1e9-1)");
+	VP_CANARY ();
 }
